@@ -87,13 +87,15 @@ async fn run_one(beh: &Value, root: &Path, snaps: &Arc<Mutex<Vec<(String, PathBu
     let dir = root.join("db");
     let _ = std::fs::remove_dir_all(&dir);
     let db = open_db(&dir, 1);
-    let evs = build_events(&db, n).await;
     let conf_dir = dir.join("buckets").join("00000").join("confirmation");
     *conf_dir_cell.lock().unwrap() = Some(conf_dir.clone());
     let mut disk = vec![0u8; n + 1];
     let parts: HashSet<u16> = [0u16].into();
+    // the manager starts on an empty database and the events are appended afterwards, as in a running node: an event
+    // nobody has reported yet has no entry in the manager (after a restart every event on disk has one)
     let mut mgr = Some(BucketConfirmationManager::new(dir.clone(), 1, rf, parts.clone()));
     mgr.as_mut().unwrap().initialize(&db).await.map_err(|e| format!("initialize failed: {e}"))?;
+    let evs = build_events(&db, n).await;
     let wm = |m: &BucketConfirmationManager| m.get_watermark(0).map(|w| w.get()).unwrap_or(0);
     let mut done = 0u64;
     let mut persisted_this_round = false;
